@@ -1,5 +1,5 @@
 import PydapModel.Proxy
-namespace Pydap
+namespace Pydap.Proxy
 
 /-- every sequence proxy's template reference is allocated -/
 def WF (h : Heap) : Prop := ∀ p, Obj.seq p ∈ h.objs → p.template < h.tmpls.length
@@ -53,7 +53,7 @@ theorem seqCopy_spec {h h1 : Heap} {p out : SeqProxy} (e : seqCopy h p = some (h
   | none => simp [ht] at e
   | some t => simp [ht] at e; exact ⟨t, rfl, e.1.symm, e.2.symm⟩
 
-theorem getitem_spec {h h2 : Heap} {p out : SeqProxy} {k : Key}
+theorem getitem_spec {h h2 : Heap} {p out : SeqProxy} {k : DKey}
     (e : seqGetitemWith seqCopy h p k = some (h2, out)) :
     Extends h h2 ∧ h2.objs = h.objs ∧ out.template < h2.tmpls.length ∧ out.session = p.session := by
   unfold seqGetitemWith at e
@@ -408,7 +408,7 @@ def specOf (t : Tmpl) (p : SeqProxy) : Spec :=
   ⟨p.baseurl, t.path, t.keys, t.visible, p.subChildren, p.selection, p.slice, p.session⟩
 
 /-- one derivation on the accumulated description -/
-def specStep (s : Spec) : Key → Option Spec
+def specStep (s : Spec) : DKey → Option Spec
   | .name k => if k ∈ s.keys then some { s with path := s.path ++ [k], keys := [], visible := [], subChildren := false }
       else none
   | .cols ks => some { s with visible := ks, subChildren := true }
@@ -425,7 +425,7 @@ theorem seqReq_spec (t : Tmpl) (p : SeqProxy) : seqReq t p = specReq (specOf t p
 
 /-- the object `__getitem__` returns is described by `specStep` of the parent's description,
     whatever else the heap contains -/
-theorem getitem_specStep {h h2 : Heap} {p out : SeqProxy} {k : Key} {t : Tmpl}
+theorem getitem_specStep {h h2 : Heap} {p out : SeqProxy} {k : DKey} {t : Tmpl}
     (ht : h.tmpls[p.template]? = some t)
     (e : seqGetitemWith seqCopy h p k = some (h2, out)) :
     ∃ t', h2.tmpls[out.template]? = some t' ∧ specStep (specOf t p) k = some (specOf t' out) := by
@@ -466,4 +466,117 @@ theorem getitem_specStep {h h2 : Heap} {p out : SeqProxy} {k : Key} {t : Tmpl}
       obtain ⟨rfl, rfl⟩ := e
       exact ⟨t, by simp, by simp [specStep, specOf]⟩
 
-end Pydap
+/-- the heap-free description of object `r` (sequence proxies only) -/
+def specAt (h : Heap) (r : Nat) : Option Spec :=
+  match h.objs[r]? with
+  | some (.seq p) => (h.tmpls[p.template]?).map fun t => specOf t p
+  | _ => none
+
+theorem specAt_extends {h h' : Heap} (w : WF h) (ex : Extends h h') (r : Nat) (hr : r < h.objs.length) :
+    specAt h' r = specAt h r := by
+  have hob := ex.ob r hr
+  have hr' : r < h'.objs.length := Nat.lt_of_lt_of_le hr ex.ob_len
+  rw [List.getElem?_eq_getElem hr, List.getElem?_eq_getElem hr'] at hob
+  simp only [Option.map_some, Option.some.injEq] at hob
+  unfold specAt
+  rw [List.getElem?_eq_getElem hr, List.getElem?_eq_getElem hr']
+  cases ho : h.objs[r] with
+  | seq p =>
+    have ho' : h'.objs[r] = Obj.seq p := by
+      rw [ho] at hob
+      cases ho2 : h'.objs[r] <;> simp [ho2, strip] at hob ⊢
+      exact hob
+    have hmem : Obj.seq p ∈ h.objs := by rw [← ho]; exact List.getElem_mem hr
+    simp only [ho']
+    rw [ex.tm p.template (w p hmem)]
+  | arr p => rw [ho] at hob; cases ho2 : h'.objs[r] <;> simp [ho2, strip] at hob ⊢
+  | fns b s => rw [ho] at hob; cases ho2 : h'.objs[r] <;> simp [ho2, strip] at hob ⊢
+  | fn b n s => rw [ho] at hob; cases ho2 : h'.objs[r] <;> simp [ho2, strip] at hob ⊢
+  | res b i s l => rw [ho] at hob; cases ho2 : h'.objs[r] <;> simp [ho2, strip] at hob ⊢
+
+theorem getitem_isSome {h : Heap} {p : SeqProxy} {k : DKey} {t : Tmpl}
+    (ht : h.tmpls[p.template]? = some t) (hs : (specStep (specOf t p) k).isSome) :
+    (seqGetitemWith seqCopy h p k).isSome := by
+  unfold seqGetitemWith seqCopy
+  simp only [ht]
+  cases k with
+  | name k =>
+    simp only [seqApply, List.getElem?_append_right (Nat.le_refl _), Nat.sub_self, List.getElem?_cons_zero]
+    have : k ∈ t.keys := by
+      by_cases hk : k ∈ t.keys
+      · exact hk
+      · have hk' : k ∉ (specOf t p).keys := hk
+        simp only [specStep] at hs
+        rw [if_neg hk'] at hs; simp at hs
+    simp [this]
+  | cols ks => simp [seqApply]
+  | ce cl => simp [seqApply]
+  | idx i => simp [seqApply]
+  | sl s => simp [seqApply]
+
+/-- **one derivation, anywhere in a history**: the new object (the next free reference) is
+    described by `specStep` of the parent's description -/
+theorem step_getitem_spec (h : Heap) (r : Nat) (k : DKey) (s s' : Spec)
+    (hs : specAt h r = some s) (hk : specStep s k = some s') :
+    specAt (step h (.getitem r k)) h.objs.length = some s' := by
+  unfold specAt at hs
+  cases ho : h.objs[r]? with
+  | none => simp [ho] at hs
+  | some o =>
+    cases o with
+    | seq p =>
+      simp only [ho] at hs
+      cases ht : h.tmpls[p.template]? with
+      | none => simp [ht] at hs
+      | some t =>
+        simp only [ht, Option.map_some, Option.some.injEq] at hs
+        subst hs
+        have hsome := getitem_isSome (h := h) (p := p) (k := k) ht (by rw [hk]; rfl)
+        cases hg : seqGetitemWith seqCopy h p k with
+        | none => rw [hg] at hsome; simp at hsome
+        | some res =>
+          obtain ⟨h2, out⟩ := res
+          obtain ⟨t', ht', hst⟩ := getitem_specStep ht hg
+          obtain ⟨_, hobj, _, _⟩ := getitem_spec hg
+          rw [hk] at hst
+          simp only [step, stepWith, ho, hg, specAt, pushObj]
+          rw [← hobj, List.getElem?_append_right (Nat.le_refl _)]
+          simp [ht', hst]
+    | _ => simp [ho] at hs
+
+/-- accumulate a list of keys on a description (what a fresh client does) -/
+def specChain (s : Spec) : List DKey → Option Spec
+  | [] => some s
+  | k :: ks => (specStep s k).bind fun s1 => specChain s1 ks
+
+/-- derive along `keys`, each key applied to the object the previous one created, with an
+    arbitrary history of other events before every derivation -/
+def deriveAmid (h : Heap) (r : Nat) : List (List Ev × DKey) → Heap × Nat
+  | [] => (h, r)
+  | (evs, k) :: rest => deriveAmid (step (run h evs) (.getitem r k)) (run h evs).objs.length rest
+
+theorem specAt_lt {h : Heap} {r : Nat} {s : Spec} (hs : specAt h r = some s) : r < h.objs.length := by
+  unfold specAt at hs
+  cases ho : h.objs[r]? with
+  | none => simp [ho] at hs
+  | some o => exact (List.getElem?_eq_some_iff.mp ho).1
+
+theorem deriveAmid_spec (h : Heap) (w : WF h) (r : Nat) (s s' : Spec) (l : List (List Ev × DKey))
+    (hs : specAt h r = some s) (hc : specChain s (l.map Prod.snd) = some s') :
+    specAt (deriveAmid h r l).1 (deriveAmid h r l).2 = some s' := by
+  induction l generalizing h r s with
+  | nil => simp only [List.map_nil, specChain, Option.some.injEq] at hc; subst hc; exact hs
+  | cons a rest ih =>
+    obtain ⟨evs, k⟩ := a
+    simp only [List.map_cons, specChain] at hc
+    cases hk : specStep s k with
+    | none => simp [hk] at hc
+    | some s1 =>
+      simp only [hk, Option.bind_some] at hc
+      obtain ⟨ex, w1⟩ := run_extends h w evs
+      have hs1 : specAt (run h evs) r = some s := by
+        rw [specAt_extends w ex r (specAt_lt hs)]; exact hs
+      have hnew := step_getitem_spec (run h evs) r k s s1 hs1 hk
+      exact ih _ (step_extends _ w1 _).2 _ s1 hnew hc
+
+end Pydap.Proxy
